@@ -53,15 +53,37 @@ pub fn probe(src: &str, w: &Value, workdir: &str) -> Value {
         arg = "ENV".to_string();
     } else {
         let mut y = String::new();
-        for (k, _) in INT_KEYS { let v = w[k].as_i64().unwrap(); if v != ABSENT { y.push_str(&format!("{}: {}\n", k, v)); } }
-        if let Some(s) = seed_text(w["seed"].as_str().unwrap()) { y.push_str(&format!("seed: {}\n", s)); }
-        if w["interface"] == "ok" { y.push_str("interface: 127.0.0.1\n"); }
+        let multidoc = w["multidoc"].as_bool().unwrap_or(false);
+        if multidoc {
+            // the required settings in a first YAML document, everything else after a "---" separator
+            let v = w["port"].as_i64().unwrap(); if v != ABSENT { y.push_str(&format!("port: {}\n", v)); }
+            if let Some(s) = seed_text(w["seed"].as_str().unwrap()) { y.push_str(&format!("seed: {}\n", s)); }
+            if w["interface"] == "ok" { y.push_str("interface: 127.0.0.1\n"); }
+            y.push_str("---\n");
+        }
+        for (k, _) in INT_KEYS { if multidoc && k == "port" { continue; } let v = w[k].as_i64().unwrap(); if v != ABSENT { y.push_str(&format!("{}: {}\n", k, v)); } }
+        if !multidoc { if let Some(s) = seed_text(w["seed"].as_str().unwrap()) { y.push_str(&format!("seed: {}\n", s)); } }
+        if !multidoc && w["interface"] == "ok" { y.push_str("interface: 127.0.0.1\n"); }
         let cs = w["client_stats"].as_str().unwrap();
         if cs != "absent" { y.push_str(&format!("client_stats: {}\n", cs)); }
         if w["persistence_directory"] == "dir" { y.push_str(&format!("persistence_directory: {}\n", pdir)); }
         if w["unknown_key"].as_bool().unwrap_or(false) { y.push_str("frobnicate: 1\n"); }
         arg = format!("{}/probe.yaml", workdir);
         std::fs::write(&arg, y).unwrap();
+        // the file is the source: whatever ROUGHENOUGH_* variables the environment happens to hold (another instance's
+        // settings, a leftover export) must not change what the server runs with. Every other file probe runs in such an
+        // environment, with valid values that all differ from the file's.
+        static FILE_PROBES: std::sync::atomic::AtomicUsize = std::sync::atomic::AtomicUsize::new(0);
+        if FILE_PROBES.fetch_add(1, std::sync::atomic::Ordering::Relaxed) % 2 == 1 {
+            std::env::set_var("ROUGHENOUGH_SEED", "f".repeat(64));
+            std::env::set_var("ROUGHENOUGH_PORT", "4343");
+            std::env::set_var("ROUGHENOUGH_INTERFACE", "127.0.0.9");
+            std::env::set_var("ROUGHENOUGH_BATCH_SIZE", "9");
+            std::env::set_var("ROUGHENOUGH_FAULT_PERCENTAGE", "9");
+            std::env::set_var("ROUGHENOUGH_NUM_WORKERS", "9");
+            std::env::set_var("ROUGHENOUGH_STATUS_INTERVAL", "99");
+            std::env::set_var("ROUGHENOUGH_HEALTH_CHECK_PORT", "4344");
+        }
     }
     let r = guarded(|| {
         let cfg = match make_config(&arg) { Ok(c) => c, Err(e) => return Err(format!("{:?}", e)) };
@@ -135,7 +157,7 @@ pub fn record(seed: u64, tier: &str, out_path: &str, workdir: &str) {
     for _ in 0..n {
         let src = if rng.chance(1, 2) { "file" } else { "env" };
         let mut w = json!({"port": 8686, "batch_size": ABSENT, "fault_percentage": ABSENT, "num_workers": ABSENT, "status_interval": ABSENT,
-            "health_check_port": ABSENT, "seed": "ok", "interface": "ok", "client_stats": "absent", "persistence_directory": "absent", "unknown_key": false});
+            "health_check_port": ABSENT, "seed": "ok", "interface": "ok", "client_stats": "absent", "persistence_directory": "absent", "unknown_key": false, "multidoc": false});
         // mostly in-range multi-key configurations with one or two boundary values
         for (k, _) in INT_KEYS {
             if rng.chance(1, 2) {
@@ -147,6 +169,7 @@ pub fn record(seed: u64, tier: &str, out_path: &str, workdir: &str) {
             }
         }
         if rng.chance(1, 12) { w["port"] = json!(ABSENT); }
+        if rng.chance(1, 12) && src == "file" { w["multidoc"] = json!(true); }
         if rng.chance(1, 10) { w["seed"] = json!(*rng.pick(&["short", "long", "nonhex", "missing", "odd", "digits", "zeros", "lzdigits", "shortdigits", "zero1"])); }
         if rng.chance(1, 20) { w["interface"] = json!("missing"); }
         if rng.chance(1, 3) { w["client_stats"] = json!(*rng.pick(&["on", "yes", "off"])); }
@@ -171,6 +194,6 @@ fn classify(w: &Value) -> &'static str {
         || !["ok", "digits", "zeros", "lzdigits"].contains(&w["seed"].as_str().unwrap_or("")) || w["interface"] != "ok" || w["unknown_key"] == true;
     if must_refuse { return "must_refuse"; }
     let stats_on = w["client_stats"] == "on" || w["client_stats"] == "yes";
-    let must_run = w["seed"] != "zeros" && w["seed"] != "lzdigits" && INT_KEYS.iter().all(|(k, _)| g(k) == ABSENT || inr(k, g(k))) && (!stats_on || w["persistence_directory"] == "dir");
+    let must_run = w["multidoc"] != true && w["seed"] != "zeros" && w["seed"] != "lzdigits" && INT_KEYS.iter().all(|(k, _)| g(k) == ABSENT || inr(k, g(k))) && (!stats_on || w["persistence_directory"] == "dir");
     if must_run { "must_run" } else { "may" }
 }
